@@ -302,6 +302,9 @@ impl Prop for C13 {
         vec!["every single-bit flip position of three two-frame transmissions (first frame 9/24/40 payload bytes, shared flag), checksum on, with and without single-bit fixing".into(), "largest single work() windows: 500 and 1250 back-to-back frames (0.4 and 1.0 million bits) through a 255-page stream in one piece".into()]
     }
     fn run(&self, c: &C13Case, ctx: &mut Ctx) {
+        // the arguments of the library's log statements are evaluated too (the default no-op
+        // logger discards the records): a log statement must not change what a block does
+        log::set_max_level(log::LevelFilter::Trace);
         let tx = transmission(c);
         let mut bits = tx.bits.clone();
         let clean = matches!(c.mode, Mode::Clean);
